@@ -119,7 +119,7 @@ func drawChunks(t *rapid.T, label string, size int) []int {
 	return c
 }
 
-var plainKinds = []string{"write-msg", "writer", "writer", "writer-fail", "ownbuf", "cipher-writer", "cipher-reader", "readfrom", "control-writer", "mask-helpers", "reject", "bad-handshake", "shared-upgrade", "ext-writer", "shared-send", "send-close", "read-data", "read-msg", "reader", "ping", "ping", "pong", "compiled"}
+var plainKinds = []string{"write-msg", "writer", "writer", "writer-fail", "ownbuf", "cipher-writer", "cipher-reader", "readfrom", "control-writer", "mask-helpers", "reject", "reject", "reject-fresh", "bad-handshake", "shared-upgrade", "ext-writer", "shared-send", "send-close", "read-data", "read-msg", "reader", "ping", "ping", "pong", "compiled"}
 var flateKinds = []string{"flate-send", "flate-recv", "flate-recv", "flate-bytes", "flate-writer", "flate-reader"}
 
 // drawTemplate draws the shape of a session. light = layer 2 (many sessions per case).
@@ -203,7 +203,8 @@ func drawTemplate(t *rapid.T, light, tcp bool) template {
 		// right after its own handshake, i.e. all of them at about the same time
 		// and (for the run's selectors) for the first time
 		first := stepSpec{Kind: "shared-upgrade", Which: rapid.IntRange(0, 15).Draw(t, "shared-upgrade"), Chunks: gen.Chunks(t, "su.chunks"), Ctl: -1, Frag: 1}
-		tp.Steps = append([]stepSpec{first}, tp.Steps...)
+		fresh := stepSpec{Kind: "reject-fresh", Chunks: gen.Chunks(t, "rf.chunks"), Ctl: -1, Frag: 1}
+		tp.Steps = append([]stepSpec{fresh, first}, tp.Steps...)
 	}
 	switch rapid.IntRange(0, 3).Draw(t, "end") {
 	case 0, 1:
@@ -1514,38 +1515,106 @@ func renderSharedRejections() string {
 }
 
 // stepReject: an upgrade that a callback of the Upgrader rejects with one of the shared errors.
-func (s *session) stepReject(o op) {
-	shared := sharedRejections[o.spec.Which%len(sharedRejections)]
-	before := renderRejection(shared)
+// wideStatus: a rejection status drawn per session from 400..599 and a few odd ones.
+func wideStatus(k int) int {
+	odd := []int{308, 600, 999, 451, 418}
+	k %= 200 + len(odd)
+	if k < 200 {
+		return 400 + k
+	}
+	return odd[k-200]
+}
+
+// rejectVia runs an upgrade of the session's request that a callback rejects
+// with rej, through Upgrader (four callbacks) or HTTPUpgrader (Negotiate).
+func (s *session) rejectVia(o op, sel int, rej error) (via string, hs ws.Handshake, err error, resp string) {
+	rec := tx.NewRec()
+	// an application header, so that OnHeader has something to be called for, and an
+	// extension offer, so that HTTPUpgrader's Negotiate is called
+	req := append(bytes.TrimSuffix(s.request(), []byte("\r\n")), "X-Session: "+word(s.id, 1000+o.idx*16, 6)+"\r\nSec-WebSocket-Extensions: x-reject\r\n\r\n"...)
+	if sel%5 == 4 {
+		via = "HTTPUpgrader.Negotiate"
+		r, perr := http.ReadRequest(bufio.NewReader(bytes.NewReader(req)))
+		if perr != nil {
+			return via, hs, perr, ""
+		}
+		u := ws.HTTPUpgrader{Negotiate: func(httphead.Option) (httphead.Option, error) { return httphead.Option{}, rej }}
+		_, _, hs, err = u.Upgrade(r, tx.NewHijackable(s.src(nil, nil), s.dst(rec), 0))
+		return via, hs, err, string(rec.Bytes())
+	}
 	u := ws.Upgrader{ReadBufferSize: s.tpl.HS.BufSize, WriteBufferSize: s.tpl.HS.BufSize}
-	via := ""
-	switch (o.spec.Which / len(sharedRejections)) % 4 {
+	switch sel % 5 {
 	case 0:
 		via = "OnRequest"
-		u.OnRequest = func([]byte) error { return shared }
+		u.OnRequest = func([]byte) error { return rej }
 	case 1:
 		via = "OnHost"
-		u.OnHost = func([]byte) error { return shared }
+		u.OnHost = func([]byte) error { return rej }
 	case 2:
 		via = "OnHeader"
-		u.OnHeader = func(k, v []byte) error { return shared }
+		u.OnHeader = func(k, v []byte) error { return rej }
 	default:
 		via = "OnBeforeUpgrade"
-		u.OnBeforeUpgrade = func() (ws.HandshakeHeader, error) { return nil, shared }
+		u.OnBeforeUpgrade = func() (ws.HandshakeHeader, error) { return nil, rej }
 	}
-	rec := tx.NewRec()
-	// an application header, so that OnHeader has something to be called for
-	req := append(bytes.TrimSuffix(s.request(), []byte("\r\n")), "X-Session: "+word(s.id, 1000+o.idx*16, 6)+"\r\n\r\n"...)
-	hs, err := u.Upgrade(tx.RW{Reader: s.src(req, o.spec.Chunks), Writer: s.dst(rec)})
-	resp := string(rec.Bytes())
-	head, body := resp, ""
+	hs, err = u.Upgrade(tx.RW{Reader: s.src(req, o.spec.Chunks), Writer: s.dst(rec)})
+	return via, hs, err, string(rec.Bytes())
+}
+
+func splitResponse(resp string) (head, body string) {
 	if i := strings.Index(resp, "\r\n\r\n"); i >= 0 {
-		head, body = resp[:i+4], resp[i+4:]
+		return resp[:i+4], resp[i+4:]
 	}
+	return resp, ""
+}
+
+// stepReject: an upgrade that a callback rejects, with one of the shared error
+// values or with an error of the session's own carrying a status from a wide range.
+func (s *session) stepReject(o op) {
+	k := o.spec.Which % (len(sharedRejections) + 3)
+	sel := o.spec.Which/(len(sharedRejections)+3) + s.id
+	if k >= len(sharedRejections) {
+		code := wideStatus(s.id*7 + o.spec.Which + o.idx)
+		own := ws.RejectConnectionError(ws.RejectionStatus(code), ws.RejectionReason("session "+word(s.id, 1001+o.idx*16, 5)+" says no"))
+		via, hs, err, resp := s.rejectVia(o, sel, own)
+		head, body := splitResponse(resp)
+		s.logf("%s own rejection status=%d same-error=%t hs={%s} response={%s} body=%s", via, code, err == own, renderHS(hs), renderHead(head), digest([]byte(body)))
+		s.expect(err == own && strings.HasPrefix(head, fmt.Sprintf("HTTP/1.1 %d %s\r\n", code, http.StatusText(code))), "the upgrade rejected by %s with status %d returned %v and answered %q", via, code, err, strings.SplitN(head, "\r\n", 2)[0])
+		return
+	}
+	shared := sharedRejections[k]
+	before := renderRejection(shared)
+	via, hs, err, resp := s.rejectVia(o, sel, shared)
+	head, body := splitResponse(resp)
 	after := renderRejection(shared)
-	s.logf("%s rejection#%d same-error=%t hs={%s} response={%s} body=%s shared-before=%s shared-after=%s", via, o.spec.Which%len(sharedRejections), err == shared, renderHS(hs), renderHead(head), digest([]byte(body)), before, after)
+	s.logf("%s rejection#%d same-error=%t hs={%s} response={%s} body=%s shared-before=%s shared-after=%s", via, k, err == shared, renderHS(hs), renderHead(head), digest([]byte(body)), before, after)
 	s.expect(err == shared && !strings.HasPrefix(head, "HTTP/1.1 101"), "the upgrade rejected by %s returned %v and answered %q", via, err, strings.SplitN(head, "\r\n", 2)[0])
 	s.expect(before == after, "the rejection error value shared by all sessions changed during Upgrade: %s -> %s", before, after)
+}
+
+// freshStatus hands out status codes no connection of this process has used
+// before (600, 601, …): whatever the library keeps per status code is then
+// created by this very rejection, in layer 2 by many sessions at once.
+var freshStatus int64 = 599
+
+// stepRejectFresh: a rejection with a never-used status. The code differs from
+// run to run (also between the solo and the concurrent run), so the transcript
+// records whether the status line is the one for the code, and the rest of the
+// response, but not the code.
+func (s *session) stepRejectFresh(o op) {
+	code := int(atomic.AddInt64(&freshStatus, 1))
+	own := ws.RejectConnectionError(ws.RejectionStatus(code), ws.RejectionReason("fresh "+word(s.id, 1000+o.idx*16, 5)))
+	sel := 0
+	if s.id%2 == 1 {
+		sel = 4
+	}
+	via, hs, err, resp := s.rejectVia(o, sel, own)
+	head, body := splitResponse(resp)
+	line := fmt.Sprintf("HTTP/1.1 %d %s\r\n", code, http.StatusText(code))
+	lineOK := strings.HasPrefix(head, line)
+	rest := strings.TrimPrefix(head, line)
+	s.logf("%s fresh status: same-error=%t hs={%s} status-line-ok=%t headers=%q body=%s", via, err == own, renderHS(hs), lineOK, rest, digest([]byte(body)))
+	s.expect(err == own && lineOK, "the upgrade rejected by %s with status %d returned %v and answered %q", via, code, err, strings.SplitN(head, "\r\n", 2)[0])
 }
 
 // --- handshakes the library itself rejects -------------------------------------------
@@ -2366,6 +2435,8 @@ func (s *session) step() {
 			s.stepExtwPut(o)
 		case "reject":
 			s.stepReject(o)
+		case "reject-fresh":
+			s.stepRejectFresh(o)
 		case "shared-upgrade":
 			s.stepSharedUpgrade(o)
 		case "bad-handshake":
